@@ -4,6 +4,7 @@ package client
 import (
 	"bytes"
 	"errors"
+	"math"
 	"net"
 	"strconv"
 	"strings"
@@ -216,7 +217,12 @@ func (cj *CookieJar) parseCookiesFromResp(host, _ []byte, resp *fasthttp.Respons
 		// Max-Age takes precedence over Expires (RFC 6265 5.3); zero or less means "expired now"
 		if seconds, ok := maxAgeAttribute(value); ok {
 			if live = seconds > 0; live {
-				c.SetExpire(now.Add(time.Duration(seconds) * time.Second))
+				// a lifetime beyond what a time.Duration can hold (292 years) means "keep it"
+				if seconds > int64(math.MaxInt64/time.Second) {
+					c.SetExpire(fasthttp.CookieExpireUnlimited)
+				} else {
+					c.SetExpire(now.Add(time.Duration(seconds) * time.Second))
+				}
 			}
 		}
 
